@@ -25,6 +25,12 @@ macro_rules! int_list { ($f:ident, $T:ty) => { group_fn! { $f; args; { let a: $T
     "Integer::is_odd" => Integer::is_odd(&a),
     "Euclid::div_euclid" => Euclid::div_euclid(&a, &b),
     "Euclid::rem_euclid" => Euclid::rem_euclid(&a, &b),
+    "Euclid::div_rem_euclid" => Euclid::div_rem_euclid(&a, &b),
+    "CheckedEuclid::checked_div_rem_euclid" => CheckedEuclid::checked_div_rem_euclid(&a, &b),
+    "Zero::set_zero" => { let mut x = a; Zero::set_zero(&mut x); x },
+    "One::set_one" => { let mut x = a; One::set_one(&mut x); x },
+    "Integer::inc" => { let mut x = a; Integer::inc(&mut x); x },
+    "Integer::dec" => { let mut x = a; Integer::dec(&mut x); x },
     "CheckedEuclid::checked_div_euclid" => CheckedEuclid::checked_div_euclid(&a, &b),
     "CheckedEuclid::checked_rem_euclid" => CheckedEuclid::checked_rem_euclid(&a, &b),
     "CheckedAdd" => CheckedAdd::checked_add(&a, &b), "CheckedSub" => CheckedSub::checked_sub(&a, &b), "CheckedMul" => CheckedMul::checked_mul(&a, &b),
